@@ -212,6 +212,8 @@ def one_run(ctx, corrs, stock_only=False, dense=False, rs=None, k=None):
         if dl and others:
             S["trf"][dl[0]["id"]] = {"successor": others[0]["id"], "share_conversion_ratio": rnd.choice([0.3276, 1.37, 0.77, 0.5])}
     cfgk = trading.gen_config(rnd, S, {"p_init_pos": 0.2})
+    if k is not None and k % 5 == 2:
+        cfgk["accounts_mod"]["validate_stock_position"] = False       # short sales allowed (--short-stock): a holding may be negative; the ledger identities do not care
     tr = trading.run_trading(rnd, S, cfgk)
     tr.run_seed, tr.run_index = rs, k
     ctx.stats["runs"] += 1
